@@ -235,6 +235,15 @@ def range_rule(ctx, R):
             fbody = fused
             cfg = CFG(fbody)
             R.note("C17.RANGE: range() analysed after fusing its generator helper into explicit loops")
+        else:
+            # ... or in a local / private helper function called with the start and a filter
+            from ..normalise import inline_helpers
+
+            inl, n_inl = inline_helpers(P, f)
+            if n_inl and CFG(inl).loops:
+                fbody = inl
+                cfg = CFG(fbody)
+                R.note("C17.RANGE: range() analysed after inlining %d helper call(s)" % n_inl)
     t0, t1, dt = f.params[1:4]
     loops = [l for l in cfg.loops]
     whiles = [l for l in loops if isinstance(l["stmt"], ast.While)]
@@ -248,26 +257,33 @@ def range_rule(ctx, R):
     st.heap[("self", "_local")] = Opaque("LOCAL")
     st.heap[("self", "_step")] = Opaque("STEP")
     st.heap[("self", "_number")] = Opaque("NUMBER")
-    first = min(w["stmt"].lineno for w in whiles)
-    pre = []
-    for n in fbody:
-        if isinstance(n, (ast.If, ast.While)):
-            break
-        pre.append(n)
-    ev.block(pre, st, [])
-    tvar = None
-    lvar = None
-    for nm, v in st.env.vars.items():
-        if key(v) == "self.ceil(T0)":
-            tvar = nm
-        if isinstance(v, Seq) and not v.items:
-            lvar = nm
-    R.check(tvar is not None and lvar is not None, "C17.RANGE", f.qual + "|start", where(f), "enumeration starts at ceil(t0) with an empty result", "range() does not start from ceil(t0) with an empty result list")
-    if tvar is None or lvar is None:
-        return
+    st0 = st
+    lvars = set()
+
+    def preheader(w):
+        """State after the straight-line statements that dominate the loop (its initialisation), evaluated in order."""
+        s_ = st0.fork()
+        inloop = set(cfg.loop_body(w)) | {w["head"]}
+        for n in cfg.nodes:
+            if n.kind == "stmt" and n.ast is not None and n not in inloop and not isinstance(n.ast, ast.Return) and cfg.dominates(n, w["head"]):
+                ev.block([n.ast], s_, [])
+        tv = lv = None
+        in_test = {n.id for n in ast.walk(w["stmt"].test) if isinstance(n, ast.Name)}
+        for nm, v in s_.env.vars.items():
+            if key(v) == "self.ceil(T0)" and (tv is None or nm in in_test):
+                tv = nm
+            if isinstance(v, Seq) and not v.items:
+                lv = nm
+        return s_, tv, lv
+
     # which branch each loop belongs to
     for w in whiles:
         ws = w["stmt"]
+        st, tvar, lvar = preheader(w)
+        R.check(tvar is not None and lvar is not None, "C17.RANGE", f.qual + "|start" + ("" if len(whiles) == 1 or w is whiles[0] else " (loop at line %d)" % ws.lineno), where(f, ws), "enumeration starts at ceil(t0) with an empty result", "range() does not start from ceil(t0) with an empty result list")
+        if tvar is None or lvar is None:
+            continue
+        lvars.add(lvar)
         guards = [t for t in cfg.nodes if t.kind == "test" and cfg.dominates(t, w["head"]) and t is not w["head"]]
         filt_branch = None
         if guards:
@@ -325,7 +341,7 @@ def range_rule(ctx, R):
                         ok = False
         R.check(ok, "C17.RANGE", f.qual + "|%s selection" % tag, where(f, ws), "a boundary is listed iff dt <= 1 or its unit number is divisible by dt", "one pass adds %s: a boundary must be listed exactly when dt <= 1 or number(time) %% dt == 0" % (items,))
     rets = [n for n in cfg.stmt_nodes() if n.kind == "stmt" and isinstance(n.ast, ast.Return)]
-    R.check(bool(rets) and all(ntext(r_.ast.value) == lvar for r_ in rets), "C17.RANGE", f.qual + "|returns the list", where(f), "returns the collected boundaries", "range() does not return the collected list")
+    R.check(bool(rets) and all(ntext(r_.ast.value) in lvars for r_ in rets), "C17.RANGE", f.qual + "|returns the list", where(f), "returns the collected boundaries", "range() does not return the collected list")
     R.check(len(whiles) in (1, 2), "C17.RANGE", f.qual + "|loops", where(f), "%d enumeration loop(s)" % len(whiles), "unexpected number of loops", nontrivial=False)
 
 
@@ -377,6 +393,14 @@ def calfield(ctx, R):
         mname = f.name
         R.saw(f)
         selfn = f.params[0]
+        f0 = f
+        if any(g.parent is f and not g.is_lambda for g in P.funcs.values()):
+            # step applications inside a local function: judge them where the function is called (inlined view)
+            from ..normalise import inline_helpers
+
+            inl, n_inl = inline_helpers(P, f)
+            if n_inl:
+                f = _View(f, inl)
         step_alias = {n_.targets[0].id for n_ in ast.walk(f.node) if isinstance(n_, ast.Assign) and len(n_.targets) == 1 and isinstance(n_.targets[0], ast.Name)
                       and isinstance(n_.value, ast.Attribute) and n_.value.attr == "_step" and isinstance(n_.value.value, ast.Name) and n_.value.value.id == selfn}
         for c in calls_in(f.node):
@@ -425,6 +449,18 @@ def calfield(ctx, R):
                 elif "month" in kws or "year" in kws:
                     R.check(f.qual in allowed, "C17.CALFIELD", "%s|%s" % (f.qual, ntext(c)[:50]), where(f, c), "month/year replacement keeping the day only inside the month/year step (applied to boundaries)", "`%s` in %s replaces month/year while keeping the day of month on an arbitrary date: ValueError for the 29th-31st (day stepping must use timedelta)" % (ntext(c)[:60], f.qual))
     R.ok("C17.CALFIELD.inventory2", "calendar replace() calls examined: %d" % m, "", "", nontrivial=False)
+
+
+class _View:
+    """A method seen through its body after inlining (same name, parameters and position as the method)."""
+
+    def __init__(self, f, body):
+        import copy
+
+        self.qual, self.name, self.params, self.module, self.cls = f.qual, f.name, f.params, f.module, f.cls
+        self.node = copy.copy(f.node)
+        self.node.body = body
+        self.lineno = f.lineno
 
 
 def _is_boundary_expr(f, e, selfn, seen):
